@@ -275,8 +275,17 @@ func (ci *index) findByIP(ip netip.Addr) (c *Persistent, found bool) {
 	return nil, false
 }
 
-// findByMAC finds persistent client by MAC.
+// findByMAC finds persistent client by MAC.  A hardware address of a length
+// that no client identifier can have, for example the one of a DHCPv6 lease,
+// belongs to no client.
 func (ci *index) findByMAC(mac net.HardwareAddr) (c *Persistent, found bool) {
+	switch len(mac) {
+	case 6, 8, 20:
+		// Go on.
+	default:
+		return nil, false
+	}
+
 	k := macToKey(mac)
 	uid, found := ci.macToUID[k]
 	if found {
